@@ -189,9 +189,24 @@ type hist struct {
 	memoKey string
 }
 
-// configKey captures every package setting a parser's outcome may depend on.
+// intended is the configuration as the harness set it (every switch a parser's outcome may
+// depend on). The memo of invariant H is keyed by what the caller configured, not by what the
+// package variables happen to hold: a call that leaves a switch changed behind shows up as
+// the same content giving another outcome under the same intended configuration.
+type intended struct {
+	limits  [NumTypes]int
+	rule    size.Rule
+	maxKeys int
+}
+
+var cfg intended
+
+func resetIntended() {
+	cfg = intended{limits: defLimits, rule: defSizeRule, maxKeys: defMaxKeys}
+}
+
 func configKey() string {
-	return fmt.Sprintf("%d/%d/%d/%d/%d/%d/%d", date.MaxInputLength, roman.MaxInputLength, sem.MaxInputLength, size.MaxInputLength, uu.MaxInputLength, int(size.DefaultRule), size.MaxObjectKeys)
+	return fmt.Sprintf("%v/%d/%d", cfg.limits, int(cfg.rule), cfg.maxKeys)
 }
 
 func deep(v interface{}) interface{} {
@@ -304,6 +319,7 @@ func (Prop) Run(t *core.Tape, o core.RunOpts) *core.Result {
 	// adds), restoreGlobals puts back the documented switches
 	resetPackages()
 	restoreGlobals()
+	resetIntended()
 	defer restoreGlobals()
 	h := &hist{t: t, o: o, res: core.NewResult(), hash: core.NewHash(), class: core.NewHash(), memo: map[string]memoEntry{}}
 	res := h.res
@@ -969,11 +985,13 @@ func (h *hist) opSetLimit() {
 			rules := [...]size.Rule{defSizeRule, 0, size.RuleDisableUnit, size.RuleEnableJSONStringForm, size.RuleEnableJSONObjectForm,
 				size.RuleEnableJSONStringForm | size.RuleEnableJSONObjectForm | size.RuleDisallowUnknownKeys, size.RuleEnableJSONObjectForm | size.RuleDisableUnit}
 			size.DefaultRule = rules[t.Choose(len(rules))]
+			cfg.rule = size.DefaultRule
 			h.hash.Add(0x51<<32 | uint64(size.DefaultRule))
 			h.res.Faults.Inc("size_default_rule_changed")
 			h.logf("set size.DefaultRule = %d", int(size.DefaultRule))
 		} else {
 			size.MaxObjectKeys = [...]int{defMaxKeys, 0, 1, 2, 3}[t.Choose(5)]
+			cfg.maxKeys = size.MaxObjectKeys
 			h.hash.Add(0x52<<32 | uint64(size.MaxObjectKeys))
 			h.res.Faults.Inc("size_max_object_keys_changed")
 			h.logf("set size.MaxObjectKeys = %d", size.MaxObjectKeys)
@@ -981,6 +999,7 @@ func (h *hist) opSetLimit() {
 		return
 	}
 	setLimit(ty, v)
+	cfg.limits[ty] = v
 	h.hash.Add(uint64(ty)<<32 | uint64(uint32(v)))
 	h.res.Faults.Inc("limit_changed")
 	h.logf("set %s.MaxInputLength = %d", typeNames[ty], v)
